@@ -139,7 +139,7 @@ def arguments_not_altered(ctx):
         ctx.check(good, 'Monitor.%s#fresh' % meth, 'result is a deep copy; self is not modified', '%s no longer returns a fresh deep copy / modifies self' % meth, f, f.node)
 
 
-@rule('C20.c', min_instances=6)
+@rule('C20.c', min_instances=14)
 def k_is_transparent(ctx):
     """the store path multiplies by k, every public reader (y, iy, ay) divides by it, merges convert with k_other/k_self"""
     M = ctx.cls(MO + ':Monitor')
@@ -154,9 +154,10 @@ def k_is_transparent(ctx):
     for prop, getter in (('y', 'get_y'), ('iy', 'get_iy'), ('ay', 'get_ay'), ('x', 'get_x')):
         pr = ctx.model.lookup_prop(M, prop)
         ctx.check(bool(pr) and pr[0] is M.methods.get(getter), 'Monitor.%s#property' % prop, 'property %s -> %s' % (prop, getter), 'property %s is no longer wired to %s' % (prop, getter), M.methods[getter], M.node)
-    kd = ctx.func('mystic.tools:_kdiv')
-    ctx.touch(kd)
-    ctx.ok('tools._kdiv', 'conversion factor helper present', kd, kd.node)
+    from .c20_refs import REFS
+    for name in ('_kdiv', '_multiply', '_divide', '_imultiply', '_idivide', '_amultiply', '_adivide', '_cmultiply', '_cdivide'):
+        h = ctx.func('mystic.tools:' + name)
+        _ref(ctx, h, REFS[name], 'tools.' + name, {'_kdiv': 'num/denom with None read as 1 (None only when both are None)'}.get(name, 'elementwise scaling helper'))
 
 
 def _write_calls(cls_methods):
@@ -245,3 +246,16 @@ def pickling_preserves_the_record(ctx):
     """the logging monitors' custom pickling keeps every attribute (shared with C06.d)"""
     from .c06 import custom_pickling_keeps_every_attribute
     custom_pickling_keeps_every_attribute(ctx)
+
+
+@rule('C20.f', min_instances=6)
+def ids_round_trip(ctx):
+    """ids are carried through the file round trip: read_monitor/write_monitor keep (x, y, id) together, _process_ids turns None / a single int (0 included) / a list into (iteration, id) tuples, write_raw_file collapses uniform ids to one value"""
+    from .c20_refs import REFS
+    for name in ('_process_ids', 'read_monitor', 'write_monitor', '_reduce_ids', 'raw_to_converge', 'converge_to_support', 'raw_to_support'):
+        h = ctx.func(MU + ':' + name)
+        _ref(ctx, h, REFS[name], 'munge.' + name, 'id / trajectory helper')
+    w = ctx.func(MU + ':write_raw_file')
+    src = ''.join(unparse(w.node).split())
+    ctx.check('ifnotlen(ids):ids=None' in src and 'elifids.count(ids[0])==len(ids):ids=ids[0]' in src and 'ifidsisnotNone:' in src, 'write_raw_file#ids',
+              'no ids -> none written; uniform ids -> the single value (tested with `is not None`, so id 0 is written)', 'write_raw_file id handling changed', w, w.node)
